@@ -498,6 +498,10 @@ def _ext_insts(args):
             use = [[int(i)+1, int(j)+1] for i, j in zip(*np.nonzero(u))]
         ent, bad = [], False
         for i, j in zip(*np.nonzero(imat)):
+            if not np.isfinite(imat[i, j]):
+                bad = True            # recorded as weight 0/1: TLC rejects it
+                ent.append([int(i)+1, int(j)+1, 0, 1])
+                continue
             f = Fraction(float(imat[i, j])).limit_denominator(100000)
             if abs(float(f) - imat[i, j]) > 4e-16*abs(imat[i, j]):
                 bad = True
@@ -506,7 +510,8 @@ def _ext_insts(args):
                oned.grid.nodes_y[0], oned.grid.nodes_y[-1]]
         notes = []
         if bad:
-            notes.append("an entry of imat is not a small rational")
+            notes.append("an entry of imat is not finite or not a small "
+                         "rational")
         if any(x != int(x) for x in ext):
             notes.append("extent not on nodes")
         if oned.shape != (1, 1, 3) or imat.shape != grid.shape_cells[:2]:
@@ -517,7 +522,8 @@ def _ext_insts(args):
         c1 = oned.map.backward(oned.property_x[0, 0, :])
         for k in range(3):
             v = cond[:, :, k][sel]
-            if not (v.min()*(1-1e-12) <= c1[k] <= v.max()*(1+1e-12)):
+            if not sel.any() or \
+                    not (v.min()*(1-1e-12) <= c1[k] <= v.max()*(1+1e-12)):
                 notes.append(f"layer {k}: value outside the selected range")
         if invariant and not np.allclose(c1, cond[0, 0, :], rtol=1e-12,
                                          atol=0):
